@@ -1,8 +1,9 @@
 /-
-  Aqv.Lemmas.ChainOps — the invariant `InvC` is preserved by `writeBlockWithState` (extension, reorganisation, side
-  block), by the side-chain writes of `importOne`, by `importChain`, `setHead` and `reopen`.
+  Aqv.Lemmas.ChainOps — `WriteBlockWithState` (extension, reorganisation, side block) and the side-chain writes preserve
+  the invariant.  Everything is proved for `GInvC` (the block head may lag behind the header head, see `ChainK`); the
+  statements for `InvC` (all heads equal) are corollaries.
 -/
-import Aqv.Lemmas.ChainInv
+import Aqv.Lemmas.ChainK
 namespace Aqv.Chain
 
 /-! ### frame lemma: operations that leave the canonical chain alone -/
@@ -40,15 +41,14 @@ theorem invC_frame {U : Map Blk} {s s' : St} {hb : Blk} {C : List Blk} (h : InvC
     genState := by rw [hgen]; exact hgs
     headState := by rw [hhead]; exact hhs }
 
-/-- adding the block `b` (a block of the universe whose parent is stored) to the store -/
-theorem storeExt_upd {U : Map Blk} {s : St} {hb : Blk} {C : List Blk} (h : InvC U s hb C) {b : Blk}
-    (hbU : U b.id = some b) :
-    StoreExt s.store (upd s.store b.id (some b)) ∧ StoreExt (upd s.store b.id (some b)) U := by
+/-- adding the block `b` (a block of the universe) to the store -/
+theorem storeExt_updK {U : Map Blk} {store : Map Blk} (hsub : StoreExt store U) {b : Blk} (hbU : U b.id = some b) :
+    StoreExt store (upd store b.id (some b)) ∧ StoreExt (upd store b.id (some b)) U := by
   constructor
   · intro k x hx
     by_cases hk : k = b.id
     · subst hk
-      have := h.sub _ _ hx
+      have := hsub _ _ hx
       rw [hbU] at this
       cases this
       simp
@@ -56,22 +56,36 @@ theorem storeExt_upd {U : Map Blk} {s : St} {hb : Blk} {C : List Blk} (h : InvC 
   · intro k x hx
     by_cases hk : k = b.id
     · subst hk; simp at hx; subst hx; exact hbU
-    · rw [upd_other _ _ _ _ hk] at hx; exact h.sub _ _ hx
+    · rw [upd_other _ _ _ _ hk] at hx; exact hsub _ _ hx
+
+theorem storeExt_upd {U : Map Blk} {s : St} {hb : Blk} {C : List Blk} (h : InvC U s hb C) {b : Blk}
+    (hbU : U b.id = some b) :
+    StoreExt s.store (upd s.store b.id (some b)) ∧ StoreExt (upd s.store b.id (some b)) U :=
+  storeExt_updK h.sub hbU
 
 /-- the intrinsic total difficulty of `b`, given its parent's record -/
-theorem tdIntr_child {U : Map Blk} (W : World U) {s : St} {hb : Blk} {C : List Blk} (h : InvC U s hb C) {b p : Blk}
-    (hbU : U b.id = some b) (hpar : parentOf s.store b = some p) {ptd : Nat} (hptd : s.td b.parent = some ptd) :
+theorem tdIntr_childK {U : Map Blk} (W : World U) {s : St} (hsub : StoreExt s.store U)
+    (htdI : ∀ k t, s.td k = some t → ∃ x l, U k = some x ∧ Path U x l s.genesis ∧ t = s.genesis.diff + diffSum l)
+    {b p : Blk} (hbU : U b.id = some b) (hpar : parentOf s.store b = some p) {ptd : Nat}
+    (hptd : s.td b.parent = some ptd) :
     ∃ x l, U b.id = some x ∧ Path U x l s.genesis ∧ ptd + b.diff = s.genesis.diff + diffSum l := by
-  obtain ⟨p', lp, hp'U, hpp, htp⟩ := h.tdIntr _ _ hptd
-  have hpU : U b.parent = some p := h.sub _ _ (parentOf_some hpar).1
+  obtain ⟨p', lp, hp'U, hpp, htp⟩ := htdI _ _ hptd
+  have hpU : U b.parent = some p := hsub _ _ (parentOf_some hpar).1
   rw [hpU] at hp'U; cases hp'U
-  refine ⟨b, b :: lp, hbU, .cons (parentOf_mono h.sub hpar) hpp, ?_⟩
+  refine ⟨b, b :: lp, hbU, .cons (parentOf_mono hsub hpar) hpp, ?_⟩
   rw [diffSum_cons, htp]
   omega
 
-/-- the td table after `hc.WriteTd(b, ptd + b.diff)` is still intrinsic -/
-theorem tdIntr_upd {U : Map Blk} (W : World U) {s : St} {hb : Blk} {C : List Blk} (h : InvC U s hb C) {b p : Blk}
+theorem tdIntr_child {U : Map Blk} (W : World U) {s : St} {hb : Blk} {C : List Blk} (h : InvC U s hb C) {b p : Blk}
     (hbU : U b.id = some b) (hpar : parentOf s.store b = some p) {ptd : Nat} (hptd : s.td b.parent = some ptd) :
+    ∃ x l, U b.id = some x ∧ Path U x l s.genesis ∧ ptd + b.diff = s.genesis.diff + diffSum l :=
+  tdIntr_childK W h.sub h.tdIntr hbU hpar hptd
+
+/-- the td table after `hc.WriteTd(b, ptd + b.diff)` is still intrinsic -/
+theorem tdIntr_updK {U : Map Blk} (W : World U) {s : St} (hsub : StoreExt s.store U)
+    (htdI : ∀ k t, s.td k = some t → ∃ x l, U k = some x ∧ Path U x l s.genesis ∧ t = s.genesis.diff + diffSum l)
+    {b p : Blk} (hbU : U b.id = some b) (hpar : parentOf s.store b = some p) {ptd : Nat}
+    (hptd : s.td b.parent = some ptd) :
     ∀ k t, upd s.td b.id (some (ptd + b.diff)) k = some t →
       ∃ x l, U k = some x ∧ Path U x l s.genesis ∧ t = s.genesis.diff + diffSum l := by
   intro k t hk
@@ -79,11 +93,17 @@ theorem tdIntr_upd {U : Map Blk} (W : World U) {s : St} {hb : Blk} {C : List Blk
   · subst hkb
     simp at hk
     subst hk
-    exact tdIntr_child W h hbU hpar hptd
+    exact tdIntr_childK W hsub htdI hbU hpar hptd
   · rw [upd_other _ _ _ _ hkb] at hk
-    exact h.tdIntr k t hk
+    exact htdI k t hk
 
-/-! ### closed forms of the re-insertion loop of `reorg` -/
+theorem tdIntr_upd {U : Map Blk} (W : World U) {s : St} {hb : Blk} {C : List Blk} (h : InvC U s hb C) {b p : Blk}
+    (hbU : U b.id = some b) (hpar : parentOf s.store b = some p) {ptd : Nat} (hptd : s.td b.parent = some ptd) :
+    ∀ k t, upd s.td b.id (some (ptd + b.diff)) k = some t →
+      ∃ x l, U k = some x ∧ Path U x l s.genesis ∧ t = s.genesis.diff + diffSum l :=
+  tdIntr_updK W h.sub h.tdIntr hbU hpar hptd
+
+/-! ### what the re-insertion loop of `reorg` leaves alone -/
 
 section fold
 variable (s : St)
@@ -128,106 +148,22 @@ theorem foldr_archive (l : List Blk) : (l.foldr reorgStep s).archive = s.archive
   | nil => rfl
   | cons x l ih => simpa [reorgStep, insertHead] using ih
 
-theorem foldr_canon_cons (x : Blk) (l : List Blk) :
-    ((x :: l).foldr reorgStep s).canon = upd (l.foldr reorgStep s).canon x.number (some x.id) := by
-  simp [reorgStep, insertHead]
-
-theorem foldr_canon_notin (l : List Blk) (n : Nat) (hn : ∀ x ∈ l, x.number ≠ n) :
-    (l.foldr reorgStep s).canon n = s.canon n := by
-  induction l with
-  | nil => rfl
-  | cons x l ih =>
-    rw [foldr_canon_cons, upd_other _ _ _ _ (by have := hn x (by simp); omega)]
-    exact ih (fun y hy => hn y (List.mem_cons_of_mem _ hy))
-
-theorem foldr_canon_in (l : List Blk) (hinj : ∀ z ∈ l, ∀ w ∈ l, z.number = w.number → z = w) (x : Blk) (hx : x ∈ l) :
-    (l.foldr reorgStep s).canon x.number = some x.id := by
-  induction l with
-  | nil => cases hx
-  | cons y l ih =>
-    rw [foldr_canon_cons]
-    by_cases hxy : x.number = y.number
-    · have := hinj x hx y (by simp) hxy
-      subst this
-      simp
-    · rw [upd_other _ _ _ _ hxy]
-      rcases List.mem_cons.mp hx with rfl | hx'
-      · exact absurd rfl hxy
-      · exact ih (fun z hz w hw => hinj z (List.mem_cons_of_mem _ hz) w (List.mem_cons_of_mem _ hw)) hx'
-
-theorem foldr_lookup_cons (x : Blk) (l : List Blk) :
-    ((x :: l).foldr reorgStep s).lookup = writeLookups (l.foldr reorgStep s).lookup x := by
-  simp [reorgStep, insertHead]
-
-theorem foldr_lookup_notin (l : List Blk) (t : Nat) (ht : t ∉ l.flatMap (·.txs)) :
-    (l.foldr reorgStep s).lookup t = s.lookup t := by
-  induction l with
-  | nil => rfl
-  | cons x l ih =>
-    simp only [List.flatMap_cons, List.mem_append, not_or] at ht
-    rw [foldr_lookup_cons, writeLookups_not_mem _ _ _ ht.1]
-    exact ih ht.2
-
-theorem foldr_lookup_in (l : List Blk) (hnd : (l.flatMap (·.txs)).Nodup) (x : Blk) (hx : x ∈ l) (j t : Nat)
-    (hj : x.txs[j]? = some t) : (l.foldr reorgStep s).lookup t = some ⟨x.id, x.number, j⟩ := by
-  induction l with
-  | nil => cases hx
-  | cons y l ih =>
-    simp only [List.flatMap_cons] at hnd
-    have hnd' := List.nodup_append.mp hnd
-    rw [foldr_lookup_cons]
-    rcases List.mem_cons.mp hx with rfl | hx'
-    · exact writeLookups_mem _ _ _ _ hnd'.1 hj
-    · have hty : t ∉ y.txs := by
-        intro hty
-        exact hnd'.2.2 t hty t (List.mem_flatMap.mpr ⟨x, hx', mem_txs_of_getElem? hj⟩) rfl
-      rw [writeLookups_not_mem _ _ _ hty]
-      exact ih hnd'.2.1 hx'
-
 theorem foldr_head_cons (x : Blk) (l : List Blk) : ((x :: l).foldr reorgStep s).head = x.id := by
   simp [reorgStep, insertHead]
-
-theorem foldr_hhead_cons (x : Blk) (l : List Blk) (hne : (l.foldr reorgStep s).canon x.number ≠ some x.id) :
-    ((x :: l).foldr reorgStep s).hhead = x.id ∧ ((x :: l).foldr reorgStep s).fhead = x.id := by
-  simp [reorgStep, insertHead, hne]
 
 end fold
 
 section apply
-variable (s : St) (n : Nat) (O N : List Blk)
+variable (s : St) (O N : List Blk)
 
-theorem reorgApply_store : (reorgApply s n O N).store = s.store := by
-  cases N with
-  | nil => rfl
-  | cons x l => exact foldr_store s (x :: l)
-theorem reorgApply_td : (reorgApply s n O N).td = s.td := by
-  cases N with
-  | nil => rfl
-  | cons x l => exact foldr_td s (x :: l)
-theorem reorgApply_receipts : (reorgApply s n O N).receipts = s.receipts := by
-  cases N with
-  | nil => rfl
-  | cons x l => exact foldr_receipts s (x :: l)
-theorem reorgApply_hasState : (reorgApply s n O N).hasState = s.hasState := by
-  cases N with
-  | nil => rfl
-  | cons x l => exact foldr_hasState s (x :: l)
-theorem reorgApply_onDisk : (reorgApply s n O N).onDisk = s.onDisk := by
-  cases N with
-  | nil => rfl
-  | cons x l => exact foldr_onDisk s (x :: l)
-theorem reorgApply_seen : (reorgApply s n O N).seen = s.seen := by
-  cases N with
-  | nil => rfl
-  | cons x l => exact foldr_seen s (x :: l)
-theorem reorgApply_genesis : (reorgApply s n O N).genesis = s.genesis := by
-  cases N with
-  | nil => rfl
-  | cons x l => exact foldr_genesis s (x :: l)
-theorem reorgApply_archive : (reorgApply s n O N).archive = s.archive := by
-  cases N with
-  | nil => rfl
-  | cons x l => exact foldr_archive s (x :: l)
+theorem reorgApply_store : (reorgApply s O N).store = s.store := foldr_store s N
+theorem reorgApply_td : (reorgApply s O N).td = s.td := foldr_td s N
+theorem reorgApply_receipts : (reorgApply s O N).receipts = s.receipts := foldr_receipts s N
+theorem reorgApply_hasState : (reorgApply s O N).hasState = s.hasState := foldr_hasState s N
+theorem reorgApply_onDisk : (reorgApply s O N).onDisk = s.onDisk := foldr_onDisk s N
+theorem reorgApply_seen : (reorgApply s O N).seen = s.seen := foldr_seen s N
+theorem reorgApply_genesis : (reorgApply s O N).genesis = s.genesis := foldr_genesis s N
+theorem reorgApply_archive : (reorgApply s O N).archive = s.archive := foldr_archive s N
 
 end apply
 
@@ -250,7 +186,7 @@ theorem reorg_spec {s s2 : St} {old new : Blk} (h : reorg s old new = some s2) :
       Path s.store new nc1 n ∧ n.number = min old.number new.number ∧
       Path s.store o oc2 c ∧ Path s.store n nc2 c' ∧ c.id = c'.id ∧
       (o.id = n.id → oc2 = [] ∧ nc2 = []) ∧
-      s2 = reorgApply s (reorgFuel s old) (oc1 ++ oc2) (nc1 ++ nc2) := by
+      s2 = reorgApply s (oc1 ++ oc2) (nc1 ++ nc2) := by
   unfold reorg at h
   simp only at h
   split at h
@@ -290,316 +226,486 @@ theorem afterTd_onDisk (s : St) (b : Blk) (ptd : Nat) :
 
 theorem afterStored_onDisk (s : St) (b : Blk) (ptd : Nat) : (afterStored s b ptd).onDisk = (afterTd s b ptd).onDisk := rfl
 
-/-- extension of the head: `b.parent = head` -/
-theorem invC_extend {U : Map Blk} (W : World U) {s : St} {hb : Blk} {C : List Blk} (h : InvC U s hb C) {b p : Blk}
+/-! ### writes that leave index, lookups and heads alone -/
+
+theorem ginvC_frame {U : Map Blk} {s s' : St} {hh : Blk} {HC : List Blk} (h : GInvC U s hh HC)
+    (hext : StoreExt s.store s'.store) (hsub : StoreExt s'.store U)
+    (hgen : s'.genesis = s.genesis)
+    (hcanon : ∀ n, s'.canon n = s.canon n) (hlookup : ∀ t, s'.lookup t = s.lookup t)
+    (hhead : s'.head = s.head) (hhh : s'.hhead = s.hhead) (hfh : s'.fhead = s.fhead)
+    (hseen : ∀ k, s.seen k = true → s'.seen k = true)
+    (hclosed : ∀ k x, s'.seen k = true → U k = some x → x.number ≠ 0 → s'.seen x.parent = true)
+    (hstate : ∀ k, s'.hasState k = true → s'.seen k = true)
+    (hdisk : ∀ k, s'.onDisk k = true → s'.hasState k = true)
+    (hrcpt : ∀ k, s'.seen k = true → s'.receipts k = true)
+    (htd : ∀ k t, s'.td k = some t → ∃ x l, U k = some x ∧ Path U x l s.genesis ∧ t = s.genesis.diff + diffSum l)
+    (hstd : ∀ k x, s'.store k = some x → (s'.td k).isSome = true)
+    (hgs : s'.onDisk s.genesis.id = true) (hhs : s'.hasState s.head = true) :
+    GInvC U s' hh HC :=
+  { k :=
+      { il := h.k.il.mono hext hsub hgen hcanon hlookup hhh
+        canonSeen := by intro x hx; rw [hgen] at hx; exact hseen _ (h.k.canonSeen x hx)
+        seenClosed := hclosed
+        stateSeen := hstate
+        diskState := hdisk
+        seenRcpt := hrcpt
+        tdIntr := by rw [hgen]; exact htd
+        storeTd := hstd
+        genState := by rw [hgen]; exact hgs }
+    headOn := by rw [hgen, hhead]; exact h.headOn
+    fheadOn := by rw [hgen, hfh]; exact h.fheadOn
+    headState := by rw [hhead]; exact hhs }
+
+/-- a side block: `WriteBlockWithState` of a block that does not become the head -/
+theorem ginv_side {U : Map Blk} (W : World U) {s : St} {hh : Blk} {HC : List Blk} (h : GInvC U s hh HC) {b p : Blk}
     (hbU : U b.id = some b) (hpar : parentOf s.store b = some p) (hps : s.hasState b.parent = true)
-    {ptd : Nat} (hptd : s.td b.parent = some ptd) (hext : b.parent = hb.id) :
-    InvC U (afterCanon (afterTd s b ptd) b) b (b :: C) := by
-  have hph : p = hb := by
-    have h1 := (parentOf_some hpar).1
-    rw [hext, h.headId W, h.headStored] at h1
-    cases h1; rfl
-  subst hph
-  have hnum := (parentOf_some hpar).2
-  have habove : s.canon b.number = none := h.canonAbove _ (by omega)
-  have hNpath : Path s.store b [b] p := .cons hpar (.nil _)
-  have hbnd : b.txs.Nodup := by
-    have := W.nodup _ _ _ _ hbU (hNpath.mono h.sub)
-    simpa using this
-  have := invC_newchain W (s := s) (s' := afterCanon (afterTd s b ptd) b) (O := []) (R := C) (N := [b]) (b := b) (c := p)
-    h (by simp) (.nil _) h.path hbU hNpath (by simp)
-    (by simp [afterCanon, afterTd, insertHead])
-    (by simp [afterCanon, afterTd, insertHead])
-    (by intro x hx; simp at hx; subst hx; simp [afterCanon, afterTd, insertHead])
-    (by intro n hn; simp only [afterCanon, afterTd, insertHead]; rw [upd_other _ _ _ _ (by omega)])
-    (by intro n hn; simp only [afterCanon, afterTd, insertHead]; rw [upd_other _ _ _ _ (by omega)]; exact h.canonAbove _ (by omega))
-    (by
-      intro x hx j t hj
-      simp at hx; subst hx
-      simp only [afterCanon, afterTd, insertHead]
-      exact writeLookups_mem _ _ _ _ hbnd hj)
-    (by intro t _ ht; simp at ht)
-    (by
-      intro t ht _
-      simp only [afterCanon, afterTd, insertHead]
-      exact writeLookups_not_mem _ _ _ (by simpa using ht))
-    (by simp [afterCanon, afterTd, insertHead])
-    (by simp [afterCanon, afterTd, insertHead, habove])
-    (by simp [afterCanon, afterTd, insertHead, habove])
-    (by simp [afterCanon, afterTd, insertHead])
-    (by simp [afterCanon, afterTd, insertHead])
-    (by simp [afterCanon, afterTd, insertHead])
-    (by intro k hk; exact (afterTd_onDisk s b ptd).1 k (by simpa [afterCanon, insertHead] using hk))
-    (by intro k hk; have := (afterTd_onDisk s b ptd).2 k hk; simpa [afterCanon, insertHead] using this)
-    hps ⟨ptd, hptd, by simp [afterCanon, afterTd, insertHead]⟩
-  simpa using this
-
-
-/-- reorganisation onto a block `b` whose chain `N` (non-empty) leaves the canonical chain at `c` -/
-theorem invC_reorg {U : Map Blk} (W : World U) {s : St} {hb : Blk} {C O R N : List Blk} (h : InvC U s hb C) {b p c : Blk}
-    (hbU : U b.id = some b) (hpar : parentOf s.store b = some p) (hps : s.hasState b.parent = true)
-    {ptd : Nat} (hptd : s.td b.parent = some ptd)
-    (hsplit : C = O ++ R) (hO : Path s.store hb O c) (hR : Path s.store c R s.genesis)
-    (hN : Path s.store b N c) (hNne : N ≠ []) (hnc : s.canon b.number ≠ some b.id) {F : Nat} (hF : hb.number ≤ F) :
-    InvC U (afterCanon (reorgApply (afterStored s b ptd) F O N) b) b (N ++ R) := by
-  obtain ⟨N', hNeq⟩ : ∃ N', N = b :: N' := by
-    rcases hN.head_eq with ⟨h1, _⟩ | ⟨l', h1⟩
-    · exact absurd h1 hNne
-    · exact ⟨l', h1⟩
-  have hbN : b ∈ N := by rw [hNeq]; simp
-  have hNnum := hN.mem_number
-  have hinj := hN.num_inj
-  have hpathU : Path U b (N ++ R) s.genesis := (hN.mono h.sub).append (hR.mono h.sub)
-  have hndAll := W.nodup _ _ _ _ hbU hpathU
-  have hndN : (N.flatMap (·.txs)).Nodup := by
-    rw [List.flatMap_append] at hndAll
-    exact (List.nodup_append.mp hndAll).1
-  have hbnd : b.txs.Nodup := hndN.sublist (txs_sublist_flatMap N b hbN)
-  have hcnum : c.number < b.number := (hNnum b hbN).1
-  -- abbreviations
-  let s1 := afterStored s b ptd
-  have hs1c : s1.canon = s.canon := rfl
-  have hs1l : s1.lookup = s.lookup := rfl
-  -- closed forms of the final state
-  have hfc : (afterCanon (reorgApply s1 F O N) b).canon =
-      upd (delCanonAbove (N.foldr reorgStep s1).canon (F + 1) (b.number + 1)) b.number (some b.id) := by
-    rw [hNeq]; simp [afterCanon, insertHead, reorgApply]
-  have hfl : (afterCanon (reorgApply s1 F O N) b).lookup =
-      writeLookups (delLookups (N.foldr reorgStep s1).lookup (txDifference (O.flatMap (·.txs)) (N.flatMap (·.txs)))) b := by
-    rw [hNeq]; simp [afterCanon, insertHead, reorgApply]
-  -- the fold's canonical entries
-  have hfoldb : (N.foldr reorgStep s1).canon b.number = some b.id := foldr_canon_in s1 N hinj b hbN
-  have hlow : ∀ n, n < b.number + 1 →
-      delCanonAbove (N.foldr reorgStep s1).canon (F + 1) (b.number + 1) n = (N.foldr reorgStep s1).canon n :=
-    fun n hn => delCanonAbove_below _ _ _ _ hn
-  have hheads : (afterCanon (reorgApply s1 F O N) b).hhead = b.id ∧
-      (afterCanon (reorgApply s1 F O N) b).fhead = b.id := by
-    have hne : (N'.foldr reorgStep s1).canon b.number ≠ some b.id := by
-      rw [foldr_canon_notin]
-      · exact hnc
-      · intro x hx hxe
-        have := hinj x (by rw [hNeq]; exact List.mem_cons_of_mem _ hx) b hbN hxe
-        subst this
-        -- b ∈ N' contradicts the strictly decreasing numbers: the tail lies below b
-        rw [hNeq] at hN
-        cases hN with
-        | cons hp' hr' =>
-          have := (hr'.mem_number _ hx).2
-          have := (parentOf_some hp').2
-          omega
-    have h2 := foldr_hhead_cons s1 b N' hne
-    have hcb : delCanonAbove ((b :: N').foldr reorgStep s1).canon (F + 1) (b.number + 1) b.number = some b.id := by
-      rw [delCanonAbove_below _ _ _ _ (by omega), ← hNeq]; exact hfoldb
-    rw [hNeq]
-    simp only [afterCanon, insertHead, reorgApply, hcb]
-    simpa using h2
-  have := invC_newchain W (s := s) (s' := afterCanon (reorgApply s1 F O N) b) (O := O) (R := R) (N := N) (b := b) (c := c)
-    h hsplit hO hR hbU hN hNne
-    (by simp [afterCanon, insertHead, reorgApply_store, s1, afterStored, afterTd])
-    (by simp [afterCanon, insertHead, reorgApply_genesis, s1, afterStored, afterTd])
-    (by
-      intro x hx
-      rw [hfc]
-      by_cases hxb : x.number = b.number
-      · have := hinj x hx b hbN hxb
-        subst this; simp
-      · rw [upd_other _ _ _ _ hxb, hlow _ (by have := (hNnum x hx).2; omega)]
-        exact foldr_canon_in s1 N hinj x hx)
-    (by
-      intro n hn
-      rw [hfc, upd_other _ _ _ _ (by omega), hlow _ (by omega), foldr_canon_notin, hs1c]
-      intro x hx
-      have := (hNnum x hx).1
-      omega)
-    (by
-      intro n hn
-      rw [hfc, upd_other _ _ _ _ (by omega)]
-      apply delCanonAbove_clears (F + 1) _ (b.number + 1) (max hb.number b.number + 1) (by omega)
-      · intro k hk1 hk2
-        rw [foldr_canon_notin _ _ _ (by intro x hx; have := (hNnum x hx).2; omega), hs1c]
-        obtain ⟨x, hx, hxn⟩ := h.canonBelow k (by omega)
-        rw [(h.canon k x.id).mpr ⟨x, hx, hxn, rfl⟩]
-        rfl
-      · intro k hk
-        rw [foldr_canon_notin _ _ _ (by intro x hx; have := (hNnum x hx).2; omega), hs1c]
-        exact h.canonAbove k (by omega)
-      · omega)
-    (by
-      intro x hx j t hj
-      rw [hfl]
-      have hfold := foldr_lookup_in s1 N hndN x hx j t hj
-      have htN : t ∈ N.flatMap (·.txs) := List.mem_flatMap.mpr ⟨x, hx, mem_txs_of_getElem? hj⟩
-      have hdel : delLookups (N.foldr reorgStep s1).lookup (txDifference (O.flatMap (·.txs)) (N.flatMap (·.txs))) t
-          = some ⟨x.id, x.number, j⟩ := by
-        rw [delLookups_apply, if_neg (by rw [mem_txDifference]; exact fun hh => hh.2 htN)]
-        exact hfold
-      by_cases htb : t ∈ b.txs
-      · obtain ⟨j', hj'⟩ := List.mem_iff_getElem?.mp htb
-        rw [writeLookups_mem _ _ _ _ hbnd hj']
-        have := foldr_lookup_in s1 N hndN b hbN j' t hj'
-        rw [hfold] at this
-        exact this.symm
-      · rw [writeLookups_not_mem _ _ _ htb]; exact hdel)
-    (by
-      intro t h1 h2
-      rw [hfl, writeLookups_not_mem _ _ _ (fun hh => h1 (List.mem_flatMap.mpr ⟨b, hbN, hh⟩)), delLookups_apply,
-        if_pos (by rw [mem_txDifference]; exact ⟨h2, h1⟩)])
-    (by
-      intro t h1 h2
-      rw [hfl, writeLookups_not_mem _ _ _ (fun hh => h1 (List.mem_flatMap.mpr ⟨b, hbN, hh⟩)), delLookups_apply,
-        if_neg (by rw [mem_txDifference]; exact fun hh => h2 hh.1), foldr_lookup_notin _ _ _ h1, hs1l])
-    (by rw [hNeq]; simp [afterCanon, insertHead])
-    hheads.1 hheads.2
-    (by simp [afterCanon, insertHead, reorgApply_seen, s1, afterStored, afterTd])
-    (by simp [afterCanon, insertHead, reorgApply_receipts, s1, afterStored, afterTd])
-    (by simp [afterCanon, insertHead, reorgApply_hasState, s1, afterStored, afterTd])
-    (by
-      intro k hk
-      apply (afterTd_onDisk s b ptd).1 k
-      simpa [afterCanon, insertHead, reorgApply_onDisk, s1, afterStored_onDisk] using hk)
-    (by
-      intro k hk
-      have := (afterTd_onDisk s b ptd).2 k hk
-      simpa [afterCanon, insertHead, reorgApply_onDisk, s1, afterStored_onDisk] using this)
-    hps ⟨ptd, hptd, by simp [afterCanon, insertHead, reorgApply_td, s1, afterStored, afterTd]⟩
-  exact this
-
-
-theorem invC_side {U : Map Blk} (W : World U) {s : St} {hb : Blk} {C : List Blk} (h : InvC U s hb C) {b p : Blk}
-    (hbU : U b.id = some b) (hpar : parentOf s.store b = some p) (hps : s.hasState b.parent = true)
-    {ptd : Nat} (hptd : s.td b.parent = some ptd) : InvC U (afterSide s b ptd) hb C := by
-  obtain ⟨he1, he2⟩ := storeExt_upd h hbU
-  refine invC_frame h he1 he2 rfl (fun _ => rfl) (fun _ => rfl) rfl rfl rfl ?_ ?_ ?_ ?_ ?_ ?_ ?_ ?_ ?_
+    {ptd : Nat} (hptd : s.td b.parent = some ptd) : GInvC U (afterSide s b ptd) hh HC := by
+  have hsub := h.k.il.idx.sub
+  obtain ⟨he1, he2⟩ := storeExt_updK hsub hbU
+  refine ginvC_frame h he1 he2 rfl (fun _ => rfl) (fun _ => rfl) rfl rfl rfl ?_ ?_ ?_ ?_ ?_ ?_ ?_ ?_ ?_
   · intro k hk; exact updB_true_of _ _ _ hk
   · intro k x hk hxU hx0
     simp only [afterSide, afterTd] at hk ⊢
     by_cases hkb : k = b.id
     · subst hkb
       rw [hbU] at hxU; cases hxU
-      exact updB_true_of _ _ _ (h.stateSeen _ hps)
+      exact updB_true_of _ _ _ (h.k.stateSeen _ hps)
     · rw [updB_other _ _ _ _ hkb] at hk
-      exact updB_true_of _ _ _ (h.seenClosed k x hk hxU hx0)
+      exact updB_true_of _ _ _ (h.k.seenClosed k x hk hxU hx0)
   · intro k hk
     simp only [afterSide, afterTd] at hk ⊢
     by_cases hkb : k = b.id
     · subst hkb; simp
     · rw [updB_other _ _ _ _ hkb] at hk
-      exact updB_true_of _ _ _ (h.stateSeen k hk)
+      exact updB_true_of _ _ _ (h.k.stateSeen k hk)
   · intro k hk
     have := (afterTd_onDisk s b ptd).1 k hk
     show updB s.hasState b.id true k = true
     rcases this with hk' | hk'
-    · exact updB_true_of _ _ _ (h.diskState k hk')
+    · exact updB_true_of _ _ _ (h.k.diskState k hk')
     · subst hk'; simp
   · intro k hk
     simp only [afterSide, afterTd] at hk ⊢
     by_cases hkb : k = b.id
     · subst hkb; simp
     · rw [updB_other _ _ _ _ hkb] at hk
-      exact updB_true_of _ _ _ (h.seenRcpt k hk)
-  · exact tdIntr_upd W h hbU hpar hptd
+      exact updB_true_of _ _ _ (h.k.seenRcpt k hk)
+  · exact tdIntr_updK W hsub h.k.tdIntr hbU hpar hptd
   · intro k x hx
     simp only [afterSide, afterTd] at hx ⊢
     by_cases hkb : k = b.id
     · subst hkb; simp
     · rw [upd_other _ _ _ _ hkb] at hx ⊢
-      exact h.storeTd k x hx
-  · exact (afterTd_onDisk s b ptd).2 _ h.genState
+      exact h.k.storeTd k x hx
+  · exact (afterTd_onDisk s b ptd).2 _ h.k.genState
   · exact updB_true_of _ _ _ h.headState
 
 /-- `WriteBlockWithoutState` -/
-theorem invC_withoutState {U : Map Blk} (W : World U) {s : St} {hb : Blk} {C : List Blk} (h : InvC U s hb C) {b p : Blk}
-    (hbU : U b.id = some b) (hpar : parentOf s.store b = some p) {ptd : Nat} (hptd : s.td b.parent = some ptd) :
-    InvC U { s with td := upd s.td b.id (some (ptd + b.diff)), store := upd s.store b.id (some b) } hb C := by
-  obtain ⟨he1, he2⟩ := storeExt_upd h hbU
-  refine invC_frame h he1 he2 rfl (fun _ => rfl) (fun _ => rfl) rfl rfl rfl (fun _ hk => hk) h.seenClosed h.stateSeen
-    h.diskState h.seenRcpt (tdIntr_upd W h hbU hpar hptd) ?_ h.genState h.headState
+theorem ginv_withoutState {U : Map Blk} (W : World U) {s : St} {hh : Blk} {HC : List Blk} (h : GInvC U s hh HC)
+    {b p : Blk} (hbU : U b.id = some b) (hpar : parentOf s.store b = some p) {ptd : Nat}
+    (hptd : s.td b.parent = some ptd) :
+    GInvC U { s with td := upd s.td b.id (some (ptd + b.diff)), store := upd s.store b.id (some b) } hh HC := by
+  have hsub := h.k.il.idx.sub
+  obtain ⟨he1, he2⟩ := storeExt_updK hsub hbU
+  refine ginvC_frame h he1 he2 rfl (fun _ => rfl) (fun _ => rfl) rfl rfl rfl (fun _ hk => hk) h.k.seenClosed
+    h.k.stateSeen h.k.diskState h.k.seenRcpt (tdIntr_updK W hsub h.k.tdIntr hbU hpar hptd) ?_ h.k.genState h.headState
   intro k x hx
   simp only at hx ⊢
   by_cases hkb : k = b.id
   · subst hkb; simp
   · rw [upd_other _ _ _ _ hkb] at hx ⊢
-    exact h.storeTd k x hx
+    exact h.k.storeTd k x hx
 
-/-- the degenerate "reorganisation" onto the head itself: every write repeats what is already there -/
-theorem invC_rehead {U : Map Blk} (W : World U) {s : St} {hb : Blk} {C : List Blk} (h : InvC U s hb C) {p : Blk}
-    (hpar : parentOf s.store hb = some p) {ptd : Nat} (hptd : s.td hb.parent = some ptd) (F : Nat) :
-    InvC U (afterCanon (reorgApply (afterStored s hb ptd) F [] []) hb) hb C := by
-  have hbU := h.headU W
-  have hid := h.headId W
-  obtain ⟨he1, he2⟩ := storeExt_upd h hbU
-  have hmem : hb ∈ C ++ [s.genesis] := by
-    rcases h.path.head_eq with ⟨h1, h2⟩ | ⟨l', h1⟩
-    · rw [h2]; simp
-    · rw [h1]; simp
-  have hbnd : hb.txs.Nodup := by
-    have := W.nodup _ _ _ _ hbU (Path.cons (parentOf_mono h.sub hpar) (.nil p))
-    simpa using this
-  have hcanon : ∀ n, (afterCanon (reorgApply (afterStored s hb ptd) F [] []) hb).canon n = s.canon n := by
-    intro n
-    simp only [afterCanon, insertHead, reorgApply, afterStored, afterTd, List.foldr_nil, upd_upd_same, updB_updB_same]
-    by_cases hn : n = hb.number
-    · subst hn; simp [h.canonHead]
-    · rw [upd_other _ _ _ _ hn]
-  refine invC_frame h (s' := afterCanon (reorgApply (afterStored s hb ptd) F [] []) hb) ?_ ?_ rfl hcanon ?_ ?_ ?_ ?_
-    ?_ ?_ ?_ ?_ ?_ ?_ ?_ ?_ ?_
-  · simpa [afterCanon, insertHead, reorgApply, afterStored, afterTd] using he1
-  · simpa [afterCanon, insertHead, reorgApply, afterStored, afterTd] using he2
-  · intro t
-    simp only [afterCanon, insertHead, reorgApply, afterStored, afterTd, List.foldr_nil, List.flatMap_nil, txDifference,
-      List.filter_nil, delLookups]
-    by_cases ht : t ∈ hb.txs
-    · obtain ⟨j, hj⟩ := List.mem_iff_getElem?.mp ht
-      rw [writeLookups_mem _ _ _ _ hbnd hj]
-      exact ((h.lookup t ⟨hb.id, hb.number, j⟩).mpr ⟨hb, hmem, rfl, rfl, hj⟩).symm
-    · rw [writeLookups_not_mem _ _ _ ht]
-  · simp [afterCanon, insertHead, hid]
-  · simp [afterCanon, insertHead, reorgApply, afterStored, afterTd, h.canonHead]
-  · simp [afterCanon, insertHead, reorgApply, afterStored, afterTd, h.canonHead]
-  · intro k hk
-    simp only [afterCanon, insertHead, reorgApply, afterStored, afterTd, List.foldr_nil, upd_upd_same, updB_updB_same]
-    exact updB_true_of _ _ _ hk
-  · intro k x hk hxU hx0
-    simp only [afterCanon, insertHead, reorgApply, afterStored, afterTd, List.foldr_nil, upd_upd_same, updB_updB_same] at hk ⊢
-    by_cases hkb : k = hb.id
+theorem invC_side {U : Map Blk} (W : World U) {s : St} {hb : Blk} {C : List Blk} (h : InvC U s hb C) {b p : Blk}
+    (hbU : U b.id = some b) (hpar : parentOf s.store b = some p) (hps : s.hasState b.parent = true)
+    {ptd : Nat} (hptd : s.td b.parent = some ptd) : InvC U (afterSide s b ptd) hb C :=
+  (ginv_side W (h.toG W) hbU hpar hps hptd).toC h.hheadEq h.fheadEq
+
+theorem invC_withoutState {U : Map Blk} (W : World U) {s : St} {hb : Blk} {C : List Blk} (h : InvC U s hb C) {b p : Blk}
+    (hbU : U b.id = some b) (hpar : parentOf s.store b = some p) {ptd : Nat} (hptd : s.td b.parent = some ptd) :
+    InvC U { s with td := upd s.td b.id (some (ptd + b.diff)), store := upd s.store b.id (some b) } hb C :=
+  (ginv_withoutState W (h.toG W) hbU hpar hptd).toC h.hheadEq h.fheadEq
+
+/-! ### the block becomes the head -/
+
+/-- Re-establishing the invariant once index and lookups of the new database are known to describe a chain through the
+    new block head `b` (`hI`, `hbm`): the remaining fields are those of the old database plus the records of `b`. -/
+theorem ginv_assemble {U : Map Blk} (W : World U) {s s' : St} {hh : Blk} {HC : List Blk} (hG : GInvC U s hh HC)
+    {b p : Blk} (hbU : U b.id = some b) (hpar : parentOf s.store b = some p) (hps : s.hasState b.parent = true)
+    {ptd : Nat} (hptd : s.td b.parent = some ptd)
+    (hstore : s'.store = upd s.store b.id (some b)) (hgen : s'.genesis = s.genesis)
+    (htd : s'.td = upd s.td b.id (some (ptd + b.diff)))
+    (hseen : s'.seen = updB s.seen b.id true) (hrc : s'.receipts = updB s.receipts b.id true)
+    (hst : s'.hasState = updB s.hasState b.id true)
+    (hdisk : ∀ k, s'.onDisk k = true → s.onDisk k = true ∨ k = b.id)
+    (hdisk' : ∀ k, s.onDisk k = true → s'.onDisk k = true)
+    (hhead : s'.head = b.id)
+    {hh' : Blk} {HC' : List Blk} (hI : IdxL U s' hh' HC') (hbm : b ∈ HC' ++ [s.genesis])
+    (hcase : (hh' = hh ∧ HC' = HC ∧ s'.fhead = s.fhead) ∨ (hh' = b ∧ s'.fhead = b.id)) :
+    GInvC U s' hh' HC' := by
+  have hK := hG.k
+  have hsub := hK.il.idx.sub
+  obtain ⟨hps', hpn⟩ := parentOf_some hpar
+  have hpid : p.id = b.parent := W.ids _ _ (hsub _ _ hps')
+  have hpU : U p.id = some p := by rw [hpid]; exact hsub _ _ hps'
+  have hpseen : s.seen p.id = true := by rw [hpid]; exact hK.stateSeen _ hps
+  obtain ⟨hext, hsub'⟩ := storeExt_updK hsub hbU
+  have hg0 := hK.il.idx.genNum
+  refine
+    { k :=
+        { il := hI
+          canonSeen := ?_, seenClosed := ?_, stateSeen := ?_, diskState := ?_, seenRcpt := ?_, tdIntr := ?_,
+          storeTd := ?_
+          genState := by rw [hgen]; exact hdisk' _ hK.genState }
+      headOn := ⟨b, by rw [hgen]; exact hbm, hhead⟩
+      fheadOn := ?_
+      headState := by rw [hhead, hst]; simp }
+  · -- canonSeen
+    intro x hx
+    rw [hgen] at hx
+    rw [hseen]
+    rcases hcase with ⟨_, hC, _⟩ | ⟨hb', _⟩
+    · subst hC; exact updB_true_of _ _ _ (hK.canonSeen x hx)
+    · have hb'' : b = hh' := hb'.symm
+      subst hb''
+      have hpath : Path (upd s.store b.id (some b)) b HC' s.genesis := by
+        have := hI.idx.path
+        rwa [hstore, hgen] at this
+      rcases hpath.head_eq with ⟨_, h2⟩ | ⟨L, hL⟩
+      · rw [h2] at hpn; omega
+      · subst hL
+        cases hpath with
+        | cons hp' hrest =>
+          rename_i p'
+          have hpp : p' = p := by
+            have := parentOf_mono hext hpar
+            rw [hp'] at this
+            cases this; rfl
+          subst hpp
+          have hrestS : Path s.store p' L s.genesis := Path.unupd hrest (by omega)
+          simp only [List.cons_append] at hx
+          rcases List.mem_cons.mp hx with rfl | hx
+          · simp
+          · apply updB_true_of
+            rcases List.mem_append.mp hx with hx | hx
+            · exact seen_along W hsub hK.seenClosed hrestS hpseen hpU x hx
+            · simp at hx; subst hx; exact hK.canonSeen _ (by simp)
+  · -- seenClosed
+    intro k x hk hxU hx0
+    rw [hseen] at hk ⊢
+    by_cases hkb : k = b.id
     · subst hkb
-      rw [hbU] at hxU; cases hxU
-      exact updB_true_of _ _ _ (h.seenClosed _ _ (h.canonSeen _ hmem) hbU hx0)
+      rw [hbU] at hxU
+      cases hxU
+      apply updB_true_of
+      exact hK.stateSeen _ hps
     · rw [updB_other _ _ _ _ hkb] at hk
-      exact updB_true_of _ _ _ (h.seenClosed k x hk hxU hx0)
-  · intro k hk
-    simp only [afterCanon, insertHead, reorgApply, afterStored, afterTd, List.foldr_nil, upd_upd_same, updB_updB_same] at hk ⊢
-    by_cases hkb : k = hb.id
+      exact updB_true_of _ _ _ (hK.seenClosed k x hk hxU hx0)
+  · -- stateSeen
+    intro k hk
+    rw [hst] at hk
+    rw [hseen]
+    by_cases hkb : k = b.id
     · subst hkb; simp
     · rw [updB_other _ _ _ _ hkb] at hk
-      exact updB_true_of _ _ _ (h.stateSeen k hk)
-  · intro k hk
-    have hk' : (afterTd s hb ptd).onDisk k = true := by
-      simpa [afterCanon, insertHead, reorgApply, afterStored_onDisk] using hk
-    have := (afterTd_onDisk s hb ptd).1 k hk'
-    show updB s.hasState hb.id true k = true
-    rcases this with hk'' | hk''
-    · exact updB_true_of _ _ _ (h.diskState k hk'')
-    · subst hk''; simp
-  · intro k hk
-    simp only [afterCanon, insertHead, reorgApply, afterStored, afterTd, List.foldr_nil, upd_upd_same, updB_updB_same] at hk ⊢
-    by_cases hkb : k = hb.id
+      exact updB_true_of _ _ _ (hK.stateSeen k hk)
+  · -- diskState
+    intro k hk
+    rw [hst]
+    rcases hdisk k hk with hk | hk
+    · exact updB_true_of _ _ _ (hK.diskState k hk)
+    · subst hk; simp
+  · -- seenRcpt
+    intro k hk
+    rw [hseen] at hk
+    rw [hrc]
+    by_cases hkb : k = b.id
     · subst hkb; simp
     · rw [updB_other _ _ _ _ hkb] at hk
-      exact updB_true_of _ _ _ (h.seenRcpt k hk)
-  · have := tdIntr_upd W h hbU hpar hptd
-    simpa [afterCanon, insertHead, reorgApply, afterStored, afterTd] using this
-  · intro k x hx
-    simp only [afterCanon, insertHead, reorgApply, afterStored, afterTd, List.foldr_nil, upd_upd_same, updB_updB_same] at hx ⊢
-    by_cases hkb : k = hb.id
+      exact updB_true_of _ _ _ (hK.seenRcpt k hk)
+  · -- tdIntr
+    rw [htd, hgen]
+    exact tdIntr_updK W hsub hK.tdIntr hbU hpar hptd
+  · -- storeTd
+    intro k x hx
+    rw [htd]
+    by_cases hkb : k = b.id
     · subst hkb; simp
-    · rw [upd_other _ _ _ _ hkb] at hx ⊢
-      exact h.storeTd k x hx
-  · have := (afterTd_onDisk s hb ptd).2 _ h.genState
-    simpa [afterCanon, insertHead, reorgApply, afterStored_onDisk] using this
-  · show updB s.hasState hb.id true s.head = true
-    exact updB_true_of _ _ _ h.headState
+    · rw [hstore, upd_other _ _ _ _ hkb] at hx
+      rw [upd_other _ _ _ _ hkb]
+      exact hK.storeTd k x hx
+  · -- the fast head
+    rcases hcase with ⟨_, hC, hf⟩ | ⟨hb', hf⟩
+    · subst hC
+      obtain ⟨fb, hfb, hfe⟩ := hG.fheadOn
+      exact ⟨fb, by rw [hgen]; exact hfb, by rw [hf, hfe]⟩
+    · exact ⟨b, by rw [hgen]; exact hbm, hf⟩
 
+/-- what the canonical branch of `WriteBlockWithState` establishes: the invariant, the block head on `b`, and either
+    `b` was on the indexed chain already (only the block head moved) or all three heads are `b` now -/
+def CanonOutcome (U : Map Blk) (s s' : St) (HC : List Blk) (b : Blk) : Prop :=
+  GInv U s' ∧ s'.head = b.id ∧
+    ((b ∈ HC ++ [s.genesis] ∧ s'.hhead = s.hhead ∧ s'.fhead = s.fhead) ∨
+     (b ∉ HC ++ [s.genesis] ∧ s'.hhead = b.id ∧ s'.fhead = b.id))
+
+/-- extension of the block head: `b.parent = head` -/
+theorem ginv_ext {U : Map Blk} (W : World U) {s : St} {hh : Blk} {HC : List Blk} (hG : GInvC U s hh HC) {b p : Blk}
+    (hbU : U b.id = some b) (hpar : parentOf s.store b = some p) (hps : s.hasState b.parent = true)
+    {ptd : Nat} (hptd : s.td b.parent = some ptd) (hext : b.parent = s.head) :
+    CanonOutcome U s (afterCanon (afterTd s b ptd) b) HC b := by
+  have hsub := hG.k.il.idx.sub
+  obtain ⟨he1, he2⟩ := storeExt_updK hsub hbU
+  obtain ⟨cb, hcbm, hcbid, hcbs⟩ := hG.headStored W
+  have hpcb : p = cb := by
+    have h1 := (parentOf_some hpar).1
+    rw [hext, hcbs] at h1
+    cases h1; rfl
+  subst hpcb
+  -- the database with the records of `b`, before the lookups are written and `insert` is called
+  let sB : St := { afterTd s b ptd with
+    store := upd s.store b.id (some b)
+    receipts := updB s.receipts b.id true
+    seen := updB s.seen b.id true }
+  have hIB : IdxL U sB hh HC := hG.k.il.mono he1 he2 rfl (fun _ => rfl) (fun _ => rfl) rfl
+  have hrw : afterCanon (afterTd s b ptd) b = insertHead { sB with lookup := writeLookups sB.lookup b } b := rfl
+  have hstep := idxL_insert_after_write W hIB (x := b) (p := p) (by show upd s.store b.id (some b) b.id = some b; simp)
+    (parentOf_mono he1 hpar) hcbm
+  rw [hrw]
+  have hdata : ∀ {hh' : Blk} {HC' : List Blk},
+      IdxL U (insertHead { sB with lookup := writeLookups sB.lookup b } b) hh' HC' → b ∈ HC' ++ [s.genesis] →
+      ((hh' = hh ∧ HC' = HC ∧ (insertHead { sB with lookup := writeLookups sB.lookup b } b).fhead = s.fhead) ∨
+        (hh' = b ∧ (insertHead { sB with lookup := writeLookups sB.lookup b } b).fhead = b.id)) →
+      GInvC U (insertHead { sB with lookup := writeLookups sB.lookup b } b) hh' HC' := by
+    intro hh' HC' hI hbm hcase
+    exact ginv_assemble W hG (s' := insertHead { sB with lookup := writeLookups sB.lookup b } b) hbU hpar hps hptd
+      rfl rfl rfl rfl rfl rfl
+      (fun k hk => (afterTd_onDisk s b ptd).1 k hk) (fun k hk => (afterTd_onDisk s b ptd).2 k hk) rfl hI hbm hcase
+  by_cases hbm : b ∈ HC ++ [s.genesis]
+  · obtain ⟨hI, hf⟩ := hstep.1 hbm
+    exact ⟨⟨hh, HC, hdata hI hbm (.inl ⟨rfl, rfl, hf⟩)⟩, rfl, .inl ⟨hbm, by rw [hI.hhead, hG.k.il.hhead], hf⟩⟩
+  · obtain ⟨O, R, _, _, hI, hf⟩ := hstep.2 hbm
+    exact ⟨⟨b, b :: R, hdata hI (by simp) (.inr ⟨rfl, hf⟩)⟩, rfl, .inr ⟨hbm, hI.hhead, hf⟩⟩
+
+/-- `WriteBlockWithState` after `reorg`: the block is indexed by then, so `insert` only moves the block head -/
+theorem afterCanon_indexed (sF : St) (L : Map Loc) (b : Blk) (hc : sF.canon b.number = some b.id) :
+    afterCanon { sF with lookup := L } b =
+      { sF with
+        store := upd sF.store b.id (some b)
+        receipts := updB sF.receipts b.id true
+        lookup := writeLookups L b
+        seen := updB sF.seen b.id true
+        head := b.id } := by
+  unfold afterCanon
+  rw [insertHead_same (by exact hc)]
+
+/-- the end of the reorganisation branch: `sF` is the database after the re-insertion loop, `L` its lookups after the
+    deletion of `deleted \ added` (which by then changes nothing) -/
+theorem ginv_reorg_final {U : Map Blk} (W : World U) {s : St} {hh : Blk} {HC : List Blk} (hG : GInvC U s hh HC)
+    {b p : Blk} (hbU : U b.id = some b) (hpar : parentOf s.store b = some p) (hps : s.hasState b.parent = true)
+    {ptd : Nat} (hptd : s.td b.parent = some ptd) (sF : St)
+    (hst : sF.store = upd s.store b.id (some b)) (hgen : sF.genesis = s.genesis)
+    (htd : sF.td = upd s.td b.id (some (ptd + b.diff))) (hseen : sF.seen = s.seen)
+    (hrc : sF.receipts = updB s.receipts b.id true) (hhs : sF.hasState = updB s.hasState b.id true)
+    (hod : sF.onDisk = (afterTd s b ptd).onDisk)
+    {hh' : Blk} {HC' : List Blk} (hI : IdxL U sF hh' HC') (hbm : b ∈ HC' ++ [s.genesis]) (L : Map Loc)
+    (hL : ∀ t, L t = sF.lookup t)
+    (hcase : (hh' = hh ∧ HC' = HC ∧ sF.fhead = s.fhead) ∨ (hh' = b ∧ sF.fhead = b.id)) :
+    GInvC U (afterCanon { sF with lookup := L } b) hh' HC' ∧
+      (afterCanon { sF with lookup := L } b).hhead = sF.hhead ∧
+      (afterCanon { sF with lookup := L } b).fhead = sF.fhead ∧
+      (afterCanon { sF with lookup := L } b).head = b.id := by
+  have hsub := hG.k.il.idx.sub
+  obtain ⟨he1, he2⟩ := storeExt_updK hsub hbU
+  have hbm' : b ∈ HC' ++ [sF.genesis] := by rw [hgen]; exact hbm
+  have hbst : sF.store b.id = some b := by rw [hst]; simp
+  have hcb' : sF.canon b.number = some b.id := (hI.idx.canon_iff_mem W hbst).mpr hbm'
+  have hhU : U hh'.id = some hh' := hI.idx.sub _ _ hI.idx.headStored
+  rw [afterCanon_indexed sF L b hcb']
+  refine ⟨?_, rfl, rfl, rfl⟩
+  have hI' : IdxL U
+      { sF with
+        store := upd sF.store b.id (some b)
+        receipts := updB sF.receipts b.id true
+        lookup := writeLookups L b
+        seen := updB sF.seen b.id true
+        head := b.id } hh' HC' := by
+    refine hI.mono ?_ ?_ rfl (fun _ => rfl) ?_ rfl
+    · intro k x hx
+      show upd sF.store b.id (some b) k = some x
+      by_cases hk : k = b.id
+      · subst hk; rw [hbst] at hx; cases hx; simp
+      · rw [upd_other _ _ _ _ hk]; exact hx
+    · intro k x hx
+      have hx' : upd sF.store b.id (some b) k = some x := hx
+      rw [hst, upd_upd_same] at hx'
+      exact he2 _ _ hx'
+    · intro t
+      show writeLookups L b t = sF.lookup t
+      by_cases htb : t ∈ b.txs
+      · obtain ⟨j, hj⟩ := List.mem_iff_getElem?.mp htb
+        have hbC : b ∈ HC' := by
+          rcases List.mem_append.mp hbm' with h | h
+          · exact h
+          · simp at h; rw [h, hI.genTxs] at htb; simp at htb
+        rw [writeLookups_mem _ _ _ _ (W.txs_nodup hhU (hI.idx.path.mono hI.idx.sub) hbC) hj]
+        exact ((hI.lookup t ⟨b.id, b.number, j⟩).mpr ⟨b, hbm', rfl, rfl, hj⟩).symm
+      · rw [writeLookups_not_mem _ _ _ htb, hL]
+  exact ginv_assemble W hG
+    (s' := { sF with
+        store := upd sF.store b.id (some b)
+        receipts := updB sF.receipts b.id true
+        lookup := writeLookups L b
+        seen := updB sF.seen b.id true
+        head := b.id }) hbU hpar hps hptd
+    (by show upd sF.store b.id (some b) = _; rw [hst, upd_upd_same])
+    hgen htd
+    (by show updB sF.seen b.id true = _; rw [hseen])
+    (by show updB sF.receipts b.id true = _; rw [hrc, updB_updB_same])
+    hhs
+    (fun k hk => (afterTd_onDisk s b ptd).1 k (by rw [← hod]; exact hk))
+    (fun k hk => by show sF.onDisk k = true; rw [hod]; exact (afterTd_onDisk s b ptd).2 k hk)
+    rfl hI' hbm hcase
+
+/-- reorganisation from the block head `cb` onto `b` (`b.parent ≠ head`, total difficulty at least the head's) -/
+theorem ginv_reorg {U : Map Blk} (W : World U) {s : St} {hh : Blk} {HC : List Blk} (hG : GInvC U s hh HC) {b p cb : Blk}
+    (hbU : U b.id = some b) (hpar : parentOf s.store b = some p) (hps : s.hasState b.parent = true)
+    {ptd : Nat} (hptd : s.td b.parent = some ptd) (hcb : s.store s.head = some cb)
+    {lt : Nat} (hlt : s.td s.head = some lt) (hge : lt ≤ ptd + b.diff)
+    {s2 : St} (hr : reorg (afterStored s b ptd) cb b = some s2) :
+    CanonOutcome U s (afterCanon s2 b) HC b := by
+  have hK := hG.k
+  have hIs := hK.il
+  have hsub := hIs.idx.sub
+  have hids := hIs.idx.storeIds W
+  obtain ⟨he1, he2⟩ := storeExt_updK hsub hbU
+  obtain ⟨cb', hcbm, hcbid, hcbs⟩ := hG.headStored W
+  have hcbe : cb' = cb := by rw [hcb] at hcbs; cases hcbs; rfl
+  subst hcbe
+  obtain ⟨hps', hpn⟩ := parentOf_some hpar
+  have hpid : p.id = b.parent := hids _ _ hps'
+  have hcbU : U cb'.id = some cb' := hsub _ _ (by rw [← hcbid]; exact hcb)
+  obtain ⟨o, n, c, c', oc1, nc1, oc2, nc2, hp1', ho, hp2', hn, hw1', hw2', hid, hsame, hs2⟩ := reorg_spec hr
+  -- the database the walks and the re-insertion loop run on
+  have hI1 : IdxL U (afterStored s b ptd) hh HC := hIs.mono he1 he2 rfl (fun _ => rfl) (fun _ => rfl) rfl
+  have hbs1 : (afterStored s b ptd).store b.id = some b := by
+    show upd s.store b.id (some b) b.id = some b; simp
+  -- the old side of the fork lies on the indexed chain
+  obtain ⟨hp1, hom⟩ := hIs.idx.path_from_mem hcbm he1 hp1'
+  obtain ⟨hO, hcm⟩ := hIs.idx.path_from_mem hcbm he1 (hp1'.append hw1')
+  have hcs := hIs.idx.chainStored W c hcm
+  have hcU : U c.id = some c := hsub _ _ hcs
+  have hN' : Path (afterStored s b ptd).store b (nc1 ++ nc2) c' := hp2'.append hw2'
+  have hcc : c' = c := by
+    by_cases hNe : nc1 ++ nc2 = []
+    · rw [hNe] at hN'
+      cases hN'
+      rw [← hid, hcU] at hbU
+      cases hbU; rfl
+    · obtain ⟨w, hw⟩ := hN'.end_stored hNe
+      have hwU := he2 _ _ hw
+      have := W.ids _ _ hwU
+      rw [← this, ← hid, hcU] at hwU
+      cases hwU; rfl
+  subst hcc
+  subst hs2
+  obtain ⟨hfst, hfgen, hfA, hfB⟩ := idxL_fold W hI1 (nc1 ++ nc2) b c' hbs1 hN' hcm
+  generalize hsF : (nc1 ++ nc2).foldr reorgStep (afterStored s b ptd) = sF at hfst hfgen hfA hfB
+  have hrA : reorgApply (afterStored s b ptd) (oc1 ++ oc2) (nc1 ++ nc2) =
+      { sF with lookup := (delLookups sF.lookup
+          (txDifference ((oc1 ++ oc2).flatMap (·.txs)) ((nc1 ++ nc2).flatMap (·.txs)))) } := by
+    rw [← hsF]; rfl
+  rw [hrA]
+  have hfd : sF.td = upd s.td b.id (some (ptd + b.diff)) := by rw [← hsF, foldr_td]; rfl
+  have hfs : sF.seen = s.seen := by rw [← hsF, foldr_seen]; rfl
+  have hfr : sF.receipts = updB s.receipts b.id true := by rw [← hsF, foldr_receipts]; rfl
+  have hfh : sF.hasState = updB s.hasState b.id true := by rw [← hsF, foldr_hasState]; rfl
+  have hfo : sF.onDisk = (afterTd s b ptd).onDisk := by rw [← hsF, foldr_onDisk]; rfl
+  have hdl : (∀ t, t ∈ txDifference ((oc1 ++ oc2).flatMap (·.txs)) ((nc1 ++ nc2).flatMap (·.txs)) → sF.lookup t = none) →
+      ∀ t, delLookups sF.lookup (txDifference ((oc1 ++ oc2).flatMap (·.txs)) ((nc1 ++ nc2).flatMap (·.txs))) t =
+        sF.lookup t := by
+    intro hdel t
+    rw [delLookups_apply]
+    split
+    · rename_i hmem; exact (hdel t hmem).symm
+    · rfl
+  by_cases hbm : b ∈ HC ++ [s.genesis]
+  · -- `b` lies on the indexed chain (which is ahead of the block head): nothing is displaced
+    obtain ⟨hIf, hff⟩ := hfA hbm
+    have hOnil : oc1 ++ oc2 = [] := by
+      obtain ⟨hp2, hnm⟩ := hIs.idx.path_from_mem hbm he1 hp2'
+      have hon : o = n := hIs.idx.chainNumInj o hom n hnm (by rw [ho, hn])
+      obtain ⟨h1, h2⟩ := hsame (by rw [hon])
+      rw [h1]
+      simp only [List.append_nil]
+      by_cases hle : cb'.number ≤ b.number
+      · have := hp1.number
+        have hmin : min cb'.number b.number = cb'.number := Nat.min_eq_left hle
+        rw [hmin] at ho
+        cases oc1 with
+        | nil => rfl
+        | cons a l => simp at this; omega
+      · -- `b` would be a proper ancestor of the block head, hence strictly lighter
+        exfalso
+        have hmin : min cb'.number b.number = b.number := Nat.min_eq_right (by omega)
+        rw [hmin] at hn
+        have hnc1 : nc1 = [] := by
+          have := hp2.number
+          cases nc1 with
+          | nil => rfl
+          | cons a l => simp at this; omega
+        have hnb : b = n := by
+          rw [hnc1] at hp2
+          cases hp2
+          rfl
+        rw [hon, ← hnb] at hp1
+        have hne : oc1 ≠ [] := by
+          intro h0
+          rw [h0] at hp1
+          have := hp1.number
+          simp at this
+          omega
+        have hbs : s.store b.id = some b := hIs.idx.chainStored W b hbm
+        obtain ⟨tb, htb⟩ := Option.isSome_iff_exists.mp (hK.storeTd _ _ hbs)
+        have h1' := td_child_eq W hK.tdIntr hbU (parentOf_mono hsub hpar) htb (by rw [hpid]; exact hptd)
+        have h2' := td_lt_of_path W hK.tdIntr hcbU hbU (hp1.mono hsub) hne (by rw [← hcbid]; exact hlt) htb
+        omega
+    have hdel : ∀ t, t ∈ txDifference ((oc1 ++ oc2).flatMap (·.txs)) ((nc1 ++ nc2).flatMap (·.txs)) →
+        sF.lookup t = none := by
+      intro t ht
+      rw [hOnil] at ht
+      simp [txDifference] at ht
+    obtain ⟨hG', hh1, hf1, hd1⟩ := ginv_reorg_final W hG hbU hpar hps hptd sF hfst hfgen hfd hfs hfr hfh hfo hIf hbm _
+      (hdl hdel) (.inl ⟨rfl, rfl, by rw [hff]; rfl⟩)
+    exact ⟨⟨hh, HC, hG'⟩, hd1, .inl ⟨hbm, by rw [hh1, hIf.hhead, hIs.hhead], by rw [hf1, hff]; rfl⟩⟩
+  · -- the index switches to the chain of `b`
+    obtain ⟨Oc, R, hsplit, hR, hIf, hff⟩ := hfB hbm
+    have hRU : Path U c' R s.genesis := hR.mono he2
+    have hORU : Path U cb' ((oc1 ++ oc2) ++ R) s.genesis := (hO.mono hsub).append hRU
+    have hbm2 : b ∈ (nc1 ++ nc2 ++ R) ++ [s.genesis] := by
+      have : b ∈ (nc1 ++ nc2 ++ R) ++ [sF.genesis] := hIf.idx.headMem
+      rwa [hfgen] at this
+    have hdel : ∀ t, t ∈ txDifference ((oc1 ++ oc2).flatMap (·.txs)) ((nc1 ++ nc2).flatMap (·.txs)) →
+        sF.lookup t = none := by
+      intro t ht
+      rw [mem_txDifference] at ht
+      obtain ⟨htO, htN⟩ := ht
+      obtain ⟨y0, hy0, hty0⟩ := List.mem_flatMap.mp htO
+      cases hl : sF.lookup t with
+      | none => rfl
+      | some l =>
+        exfalso
+        obtain ⟨y, hy, _, _, hyt⟩ := (hIf.lookup t l).mp hl
+        have hty := mem_txs_of_getElem? hyt
+        rcases List.mem_append.mp hy with hy | hy
+        · rcases List.mem_append.mp hy with hy | hy
+          · exact htN (List.mem_flatMap.mpr ⟨y, hy, hty⟩)
+          · exact W.disjoint hcbU hORU hy0 hy hty0 hty
+        · simp at hy
+          rw [hy, hIf.genTxs] at hty
+          simp at hty
+    obtain ⟨hG', hh1, hf1, hd1⟩ := ginv_reorg_final W hG hbU hpar hps hptd sF hfst hfgen hfd hfs hfr hfh hfo hIf hbm2 _
+      (hdl hdel) (.inr ⟨rfl, hff⟩)
+    exact ⟨⟨b, nc1 ++ nc2 ++ R, hG'⟩, hd1, .inr ⟨hbm, by rw [hh1, hIf.hhead], by rw [hf1, hff]⟩⟩
 
 theorem decideReorg_ge {e l bn hn : Nat} {coin : Bool} (h : decideReorg e l bn hn coin = true) : l ≤ e := by
   unfold decideReorg at h
@@ -611,117 +717,6 @@ theorem decideReorg_false_le {e l bn hn : Nat} {coin : Bool} (h : decideReorg e 
   simp only [Bool.or_eq_false_iff, decide_eq_false_iff_not] at h
   omega
 
-/-- `WriteBlockWithState` preserves the invariant (unless `reorg` fails on a broken ancestry, see `reorg_ok_of_closed`). -/
-theorem inv_wbws {U : Map Blk} (W : World U) {s : St} (h : Inv U s) {b p : Blk} (hbU : U b.id = some b)
-    (hpar : parentOf s.store b = some p) (hps : s.hasState b.parent = true) (coin : Bool)
-    (hok : (writeBlockWithState s b coin).err ≠ some .reorgFail) : Inv U (writeBlockWithState s b coin).st := by
-  obtain ⟨hb, C, h⟩ := h
-  unfold writeBlockWithState at hok ⊢
-  cases hptd : s.td b.parent with
-  | none => exact ⟨hb, C, h⟩
-  | some ptd =>
-    simp only [hptd] at hok ⊢
-    rw [h.headStored] at hok ⊢
-    have hhtd := h.storeTd _ _ h.headStored
-    cases hlt : s.td s.head with
-    | none => rw [hlt] at hhtd; cases hhtd
-    | some localTd =>
-      simp only [hlt] at hok ⊢
-      by_cases hdec : decideReorg (ptd + b.diff) localTd b.number hb.number coin = true
-      · rw [if_pos hdec] at hok ⊢
-        by_cases hext : b.parent = hb.id
-        · have : (b.parent != hb.id) = false := by simp [hext]
-          simp only [this, Bool.false_eq_true, if_false]
-          exact ⟨b, b :: C, invC_extend W h hbU hpar hps hptd hext⟩
-        · have hne : (b.parent != hb.id) = true := by simp [hext]
-          simp only [hne, if_true] at hok ⊢
-          cases hr : reorg (afterStored s b ptd) hb b with
-          | none => rw [hr] at hok; exact absurd rfl hok
-          | some s2 =>
-            simp only
-            obtain ⟨o, n, c, c', oc1, nc1, oc2, nc2, hp1', ho, hp2', hn, hw1', hw2', hid, hsame, hs2⟩ := reorg_spec hr
-            -- the walks were made on the store that already holds b: bring them back to the old store
-            have hext' : StoreExt s.store (afterStored s b ptd).store := (storeExt_upd h hbU).1
-            have hp1 : Path s.store hb oc1 o := h.pathFromHead hext' hp1'
-            have hO : Path s.store hb (oc1 ++ oc2) c := h.pathFromHead hext' (hp1'.append hw1')
-            have hmle : min hb.number b.number ≤ b.number := Nat.min_le_right _ _
-            have hp2 : Path s.store b nc1 n := Path.unupd hp2' (Nat.le_refl _)
-            have hw2 : Path s.store n nc2 c' := Path.unupd hw2' (by omega)
-            have hN := hp2.append hw2
-            obtain ⟨hcmem, R, hsplit, hR⟩ := h.memOfPath hO
-            have hcU : U c.id = some c := h.sub _ _ (h.chainStored W c hcmem)
-            have hcc : c' = c := by
-              by_cases hNe : nc1 ++ nc2 = []
-              · rw [hNe] at hN
-                cases hN
-                rw [← hid, hcU] at hbU
-                cases hbU; rfl
-              · obtain ⟨w, hw⟩ := hN.end_stored hNe
-                have hwU := h.sub _ _ hw
-                have := W.ids _ _ hwU
-                rw [← this, ← hid, hcU] at hwU
-                cases hwU; rfl
-            subst hcc
-            subst hs2
-            have hfuel : hb.number ≤ reorgFuel (afterStored s b ptd) hb := by
-              have h1 : (afterStored s b ptd).store s.head = some hb := hext' _ _ h.headStored
-              simp [reorgFuel, afterStored, afterTd, h.hheadEq] at h1 ⊢
-              rw [h1]; simp
-              omega
-            generalize reorgFuel (afterStored s b ptd) hb = F at hfuel ⊢
-            have hpid : p.id = b.parent := W.ids _ _ (h.sub _ _ (parentOf_some hpar).1)
-            by_cases hNe : nc1 ++ nc2 = []
-            · -- b is the common block, hence canonical; by total difficulty it is the head itself
-              have hcb : b = c' := by rw [hNe] at hN; cases hN; rfl
-              subst hcb
-              have hbh : b = hb := by
-                apply Classical.byContradiction
-                intro hne'
-                have hbs := h.chainStored W b hcmem
-                obtain ⟨tb, htb⟩ := Option.isSome_iff_exists.mp (h.storeTd _ _ hbs)
-                have hth : s.td hb.id = some localTd := by rw [h.headId W]; exact hlt
-                have h1 := h.tdParent W hbU (parentOf_mono h.sub hpar) htb (by rw [hpid]; exact hptd)
-                have h2 := h.tdStrict W hcmem hne' htb hth
-                have := decideReorg_ge hdec
-                omega
-              subst hbh
-              have hOe : oc1 ++ oc2 = [] := by
-                have := hO.number
-                cases hl : oc1 ++ oc2 with
-                | nil => rfl
-                | cons a l => rw [hl] at this; simp at this
-              rw [hOe, hNe]
-              exact ⟨b, C, invC_rehead W h hpar hptd F⟩
-            · have hnc : s.canon b.number ≠ some b.id := by
-                intro hc
-                obtain ⟨x, hx, hxn, hxi⟩ := (h.canon _ _).mp hc
-                have hxU := h.sub _ _ (h.chainStored W x hx)
-                rw [hxi, hbU] at hxU
-                cases hxU
-                have hle := h.chainNumber _ hx
-                have hmin : min hb.number b.number = b.number := Nat.min_eq_right hle
-                rw [hmin] at hn ho
-                have hnc1 : nc1 = [] := by
-                  have := hp2.number
-                  cases hl : nc1 with
-                  | nil => rfl
-                  | cons a l => rw [hl] at this; simp at this; omega
-                subst hnc1
-                cases hp2
-                have homem := (h.memOfPath hp1).1
-                have hob := h.chainNumInj o homem _ hx ho
-                subst hob
-                have := (hsame rfl).2
-                simp [this] at hNe
-              exact ⟨b, (nc1 ++ nc2) ++ R, invC_reorg W h hbU hpar hps hptd hsplit hO hR hN hNe hnc hfuel⟩
-      · have hdec' : decideReorg (ptd + b.diff) localTd b.number hb.number coin = false := by
-          cases hd : decideReorg (ptd + b.diff) localTd b.number hb.number coin
-          · rfl
-          · exact absurd hd hdec
-        simp only [hdec', Bool.false_eq_true, if_false]
-        exact ⟨hb, C, invC_side W h hbU hpar hps hptd⟩
-
-
 /-! ### insertChain2 -/
 
 theorem headerCheck_none {store : Map Blk} {b : Blk} (h : headerCheck store b = none) :
@@ -731,14 +726,14 @@ theorem headerCheck_none {store : Map Blk} {b : Blk} (h : headerCheck store b = 
   | none => rw [hp] at h; cases h
   | some p => exact ⟨p, rfl⟩
 
-/-- the possible outcomes of `WriteBlockWithState` -/
-theorem wbws_cases (s : St) (b : Blk) (coin : Bool) :
+/-- the possible outcomes of `WriteBlockWithState`, with the reason for the extension branch -/
+theorem wbws_cases' (s : St) (b : Blk) (coin : Bool) :
     (∃ e, writeBlockWithState s b coin = ⟨s, some e⟩ ∧ e ≠ .reorgFail) ∨
     (∃ ptd cur, s.td b.parent = some ptd ∧ s.store s.head = some cur ∧ reorg (afterStored s b ptd) cur b = none ∧
       writeBlockWithState s b coin = ⟨afterStored s b ptd, some .reorgFail⟩) ∨
     (∃ ptd s2 cur localTd, s.td b.parent = some ptd ∧ s.store s.head = some cur ∧ s.td s.head = some localTd ∧
       decideReorg (ptd + b.diff) localTd b.number cur.number coin = true ∧
-      (s2 = afterTd s b ptd ∨ reorg (afterStored s b ptd) cur b = some s2) ∧
+      ((s2 = afterTd s b ptd ∧ b.parent = cur.id) ∨ reorg (afterStored s b ptd) cur b = some s2) ∧
       writeBlockWithState s b coin = ⟨afterCanon s2 b, none⟩) ∨
     (∃ ptd cur localTd, s.td b.parent = some ptd ∧ s.store s.head = some cur ∧ s.td s.head = some localTd ∧
       decideReorg (ptd + b.diff) localTd b.number cur.number coin = false ∧
@@ -767,7 +762,86 @@ theorem wbws_cases (s : St) (b : Blk) (coin : Bool) :
             | none => exact .inr (.inl ⟨ptd, cur, rfl, rfl, hr, rfl⟩)
             | some s2 => exact .inr (.inr (.inl ⟨ptd, s2, cur, localTd, rfl, rfl, rfl, hdec, .inr hr, rfl⟩))
           · simp only [hext]
-            exact .inr (.inr (.inl ⟨ptd, _, cur, localTd, rfl, rfl, rfl, hdec, .inl rfl, rfl⟩))
+            have hpe : b.parent = cur.id := by simpa using hext
+            exact .inr (.inr (.inl ⟨ptd, _, cur, localTd, rfl, rfl, rfl, hdec, .inl ⟨rfl, hpe⟩, rfl⟩))
+
+/-- the possible outcomes of `WriteBlockWithState` -/
+theorem wbws_cases (s : St) (b : Blk) (coin : Bool) :
+    (∃ e, writeBlockWithState s b coin = ⟨s, some e⟩ ∧ e ≠ .reorgFail) ∨
+    (∃ ptd cur, s.td b.parent = some ptd ∧ s.store s.head = some cur ∧ reorg (afterStored s b ptd) cur b = none ∧
+      writeBlockWithState s b coin = ⟨afterStored s b ptd, some .reorgFail⟩) ∨
+    (∃ ptd s2 cur localTd, s.td b.parent = some ptd ∧ s.store s.head = some cur ∧ s.td s.head = some localTd ∧
+      decideReorg (ptd + b.diff) localTd b.number cur.number coin = true ∧
+      (s2 = afterTd s b ptd ∨ reorg (afterStored s b ptd) cur b = some s2) ∧
+      writeBlockWithState s b coin = ⟨afterCanon s2 b, none⟩) ∨
+    (∃ ptd cur localTd, s.td b.parent = some ptd ∧ s.store s.head = some cur ∧ s.td s.head = some localTd ∧
+      decideReorg (ptd + b.diff) localTd b.number cur.number coin = false ∧
+      writeBlockWithState s b coin = ⟨afterSide s b ptd, none⟩) := by
+  rcases wbws_cases' s b coin with h | h | ⟨ptd, s2, cur, lt, h1, h2, h3, h4, h5, h6⟩ | h
+  · exact .inl h
+  · exact .inr (.inl h)
+  · refine .inr (.inr (.inl ⟨ptd, s2, cur, lt, h1, h2, h3, h4, ?_, h6⟩))
+    rcases h5 with ⟨h5, _⟩ | h5
+    · exact .inl h5
+    · exact .inr h5
+  · exact .inr (.inr (.inr h))
+
+/-- the canonical branch of `WriteBlockWithState`, whatever way it is reached -/
+theorem ginv_canon {U : Map Blk} (W : World U) {s : St} {hh : Blk} {HC : List Blk} (hG : GInvC U s hh HC) {b p cur : Blk}
+    (hbU : U b.id = some b) (hpar : parentOf s.store b = some p) (hps : s.hasState b.parent = true)
+    {ptd lt : Nat} (hptd : s.td b.parent = some ptd) (hcur : s.store s.head = some cur) (hlt : s.td s.head = some lt)
+    {coin : Bool} (hdec : decideReorg (ptd + b.diff) lt b.number cur.number coin = true) {s2 : St}
+    (hs2 : (s2 = afterTd s b ptd ∧ b.parent = cur.id) ∨ reorg (afterStored s b ptd) cur b = some s2) :
+    CanonOutcome U s (afterCanon s2 b) HC b := by
+  rcases hs2 with ⟨hs2, hpe⟩ | hr
+  · subst hs2
+    have hcid : cur.id = s.head := W.ids _ _ (hG.k.il.idx.sub _ _ hcur)
+    exact ginv_ext W hG hbU hpar hps hptd (by rw [hpe, hcid])
+  · exact ginv_reorg W hG hbU hpar hps hptd hcur hlt (decideReorg_ge hdec) hr
+
+/-- `WriteBlockWithState` preserves the invariant, also when the block head lags behind the header head (unless `reorg`
+    fails on a broken ancestry, see `reorg_ok_of_closed`) -/
+theorem ginv_wbws {U : Map Blk} (W : World U) {s : St} (h : GInv U s) {b p : Blk} (hbU : U b.id = some b)
+    (hpar : parentOf s.store b = some p) (hps : s.hasState b.parent = true) (coin : Bool)
+    (hok : (writeBlockWithState s b coin).err ≠ some .reorgFail) : GInv U (writeBlockWithState s b coin).st := by
+  obtain ⟨hh, HC, hG⟩ := h
+  rcases wbws_cases' s b coin with ⟨e, he, _⟩ | ⟨ptd, _, _, _, _, he⟩ | ⟨ptd, s2, cur, lt, hptd, hcur, hlt, hdec, hs2, he⟩ |
+    ⟨ptd, cur, lt, hptd, _, _, _, he⟩
+  · rw [he]; exact ⟨hh, HC, hG⟩
+  · rw [he] at hok; exact absurd rfl hok
+  · rw [he]; exact (ginv_canon W hG hbU hpar hps hptd hcur hlt hdec hs2).1
+  · rw [he]; exact ⟨hh, HC, ginv_side W hG hbU hpar hps hptd⟩
+
+/-- `WriteBlockWithState` preserves the invariant (unless `reorg` fails on a broken ancestry, see `reorg_ok_of_closed`). -/
+theorem inv_wbws {U : Map Blk} (W : World U) {s : St} (h : Inv U s) {b p : Blk} (hbU : U b.id = some b)
+    (hpar : parentOf s.store b = some p) (hps : s.hasState b.parent = true) (coin : Bool)
+    (hok : (writeBlockWithState s b coin).err ≠ some .reorgFail) : Inv U (writeBlockWithState s b coin).st := by
+  obtain ⟨hb, C, h⟩ := h
+  rcases wbws_cases' s b coin with ⟨e, he, _⟩ | ⟨ptd, _, _, _, _, he⟩ | ⟨ptd, s2, cur, lt, hptd, hcur, hlt, hdec, hs2, he⟩ |
+    ⟨ptd, cur, lt, hptd, _, _, _, he⟩
+  · rw [he]; exact ⟨hb, C, h⟩
+  · rw [he] at hok; exact absurd rfl hok
+  · rw [he]
+    obtain ⟨⟨hh', HC', hG'⟩, hhead, hcase⟩ := ginv_canon W (h.toG W) hbU hpar hps hptd hcur hlt hdec hs2
+    have hcurb : cur = hb := by rw [h.headStored] at hcur; cases hcur; rfl
+    subst hcurb
+    rcases hcase with ⟨hbm, hhh, hfh⟩ | ⟨_, hhh, hfh⟩
+    · -- a block of the canonical chain at least as heavy as the head is the head
+      have hbh : b = cur := by
+        apply Classical.byContradiction
+        intro hne'
+        have hbs := h.chainStored W b hbm
+        obtain ⟨tb, htb⟩ := Option.isSome_iff_exists.mp (h.storeTd _ _ hbs)
+        have hth : s.td cur.id = some lt := by rw [h.headId W]; exact hlt
+        have hpid : p.id = b.parent := W.ids _ _ (h.sub _ _ (parentOf_some hpar).1)
+        have h1 := h.tdParent W hbU (parentOf_mono h.sub hpar) htb (by rw [hpid]; exact hptd)
+        have h2 := h.tdStrict W hbm hne' htb hth
+        have := decideReorg_ge hdec
+        omega
+      subst hbh
+      exact ⟨hh', HC', hG'.toC (by rw [hhh, hhead, h.hheadEq, h.headId W]) (by rw [hfh, hhead, h.fheadEq, h.headId W])⟩
+    · exact ⟨hh', HC', hG'.toC (by rw [hhh, hhead]) (by rw [hfh, hhead])⟩
+  · rw [he]; exact ⟨hb, C, invC_side W h hbU hpar hps hptd⟩
 
 theorem wbws_hasState (s : St) (b : Blk) (coin : Bool) (h : (writeBlockWithState s b coin).err = none) :
     (writeBlockWithState s b coin).st.hasState b.id = true := by
@@ -784,10 +858,9 @@ theorem wbws_hasState (s : St) (b : Blk) (coin : Bool) (h : (writeBlockWithState
   · rw [he]; simp [afterSide, afterTd]
 
 /-- the store only grows in `WriteBlockWithState` -/
-theorem wbws_storeExt {U : Map Blk} {s : St} (h : Inv U s) {b : Blk} (hbU : U b.id = some b) (coin : Bool) :
+theorem wbws_storeExtK {U : Map Blk} {s : St} (hsub : StoreExt s.store U) {b : Blk} (hbU : U b.id = some b) (coin : Bool) :
     StoreExt s.store (writeBlockWithState s b coin).st.store := by
-  obtain ⟨hb, C, h⟩ := h
-  have hup := (storeExt_upd h hbU).1
+  have hup := (storeExt_updK hsub hbU).1
   rcases wbws_cases s b coin with ⟨e, he, _⟩ | ⟨ptd, _, _, _, _, he⟩ | ⟨ptd, s2, cur, lt, _, _, _, _, hs2, he⟩ | ⟨ptd, cur, lt, _, _, _, _, he⟩
   · rw [he]; exact fun _ _ hx => hx
   · rw [he]; exact hup
@@ -799,6 +872,11 @@ theorem wbws_storeExt {U : Map Blk} {s : St} (h : Inv U s) {b : Blk} (hbU : U b.
       rw [hs2, reorgApply_store]
       simpa [afterStored] using hup
   · rw [he]; exact hup
+
+theorem wbws_storeExt {U : Map Blk} {s : St} (h : Inv U s) {b : Blk} (hbU : U b.id = some b) (coin : Bool) :
+    StoreExt s.store (writeBlockWithState s b coin).st.store := by
+  obtain ⟨hb, C, h⟩ := h
+  exact wbws_storeExtK h.sub hbU coin
 
 theorem processWinners_cons_err {s : St} {w : Blk} {l : List Blk} {coins : List Bool} {e : Err}
     (h : (processWinners s l coins).err = some e) : processWinners s (w :: l) coins = processWinners s l coins := by
